@@ -592,3 +592,25 @@ def run(chk):
 
 def common_lit(n):
     return str(n) if n >= 0 else f"(-{-n})"
+
+
+def replay(path):
+    """re-run the input recorded in a replay file on the current tree and show what comes back"""
+    rec = json.load(open(path))
+    rp = rec.get("replay", {})
+    if "harness" in rp:
+        got = run_harness([rp["harness"]], per_req_timeout=30.0)[0]
+        shown = got.get("r", got) if isinstance(got, dict) else got
+    elif "src" in rp:
+        got = run_harness([{"op": "run", "src": rp["src"], "get": rp.get("get", [])}], per_req_timeout=30.0)[0]
+        shown = got.get("vals", got) if isinstance(got, dict) else got
+    else:
+        print("replay: nothing to run in", path, "(a broken proof obligation or correspondence, see 'what')")
+        print(rec.get("what"))
+        return 1
+    print("key     :", rec.get("key"))
+    print("what    :", rec.get("what"))
+    print("expected:", rp.get("expected"))
+    print("now     :", json.dumps(shown, ensure_ascii=False)[:2000])
+    bad = isinstance(got, dict) and any(k in got for k in ("panic", "abort", "hang"))
+    return 1 if bad else 0
